@@ -186,23 +186,28 @@ inductive Res where
   | none                -- (writable) no return value
   deriving Repr, BEq, DecidableEq
 
+/-- the `max_write_buffer_size` test of `write` (made only for non-empty data) -/
+def isFull (s : St) (d : Bytes) : Bool :=
+  match s.maxw with
+  | some m => decide (d ≠ []) && decide (m < s.buf.size + d.length)
+  | none => false
+
+/-- `write` up to the point where the future has been queued -/
+def enqueue (s : St) (d : Bytes) : St :=
+  { s with buf := s.buf.append d, widx := s.widx + d.length,
+           futs := s.futs ++ [(s.widx + d.length, s.nextId)], nextId := s.nextId + 1 }
+
 def step (s : St) : Op → St × Res × List Ev
   | .write d script =>
     if s.closed then (s, .err .closed, [])
+    else if isFull s d then (s, .err .full, [])
     else
-      let isFull := match s.maxw with
-        | some m => decide (d ≠ []) && decide (m < s.buf.size + d.length)
-        | none => false
-      if isFull then (s, .err .full, [])
-      else
-        let s1 := { s with buf := s.buf.append d, widx := s.widx + d.length }
-        let s2 := { s1 with futs := s1.futs ++ [(s1.widx, s1.nextId)], nextId := s1.nextId + 1 }
-        let (s3, es) := handleWrite s2 script
-        (s3, .fut s.nextId, es)
+      let r := handleWrite (enqueue s d) script
+      (r.1, .fut s.nextId, r.2)
   | .writeBad => if s.closed then (s, .err .closed, []) else (s, .err .typeError, [])
   | .writable script =>
     if s.closed then (s, .none, [])
-    else let (s1, es) := handleWrite s script; (s1, .none, es)
+    else let r := handleWrite s script; (r.1, .none, r.2)
 
 def run (s : St) : List Op → St × List (Res × List Ev)
   | [] => (s, [])
